@@ -4,6 +4,7 @@ import PercevalModel.Model.C09
 import PercevalModel.Model.C09Run
 import PercevalModel.Model.C09Conv
 import PercevalModel.Model.C09Iter
+import PercevalModel.Model.C09Job
 
 open Lean PM PM.Proto PM.C09
 
@@ -205,6 +206,38 @@ def iterOfJson (n : Nat) (j : Json) : Except String Iter := do
       pure (some l)
   return ⟨← optNat j "ms", ← optNat j "sh", ← optNat j "filter", ← optNat j "input", ← optNat j "noise", ps⟩
 
+def cmdOf (s : String) : Except String Cmd :=
+  match s with
+  | "probs" => .ok .probs
+  | "sample_count" => .ok .sampleCount
+  | "samples" => .ok .samples
+  | _ => .error s!"bad command {s}"
+
+def cmdStr : Cmd → String
+  | .probs => "probs"
+  | .sampleCount => "sample_count"
+  | .samples => "samples"
+
+def optNatVal (v : Json) : Except String (Option Nat) :=
+  match v with
+  | .null => return none
+  | _ => return some (← v.getNat?)
+
+/-- a dictionary entry: `[]` = key absent, `[v]` = key present with value `v` (`null` = `None`) -/
+def entryOf (j : Json) (k : String) : Except String (Option (Option Nat)) := do
+  match (← arrOf j k) with
+  | #[] => return none
+  | #[v] => return some (← optNatVal v)
+  | _ => throw "bad entry"
+
+def entryJson : Option (Option Nat) → Json
+  | none => Json.arr #[]
+  | some v => Json.arr #[optNatJson v]
+
+def callJson : Call → Json
+  | .samples ms sh => Json.mkObj [("kind", "samples"), ("ms", toJson ms), ("sh", optNatJson sh)]
+  | .probs sh => Json.mkObj [("kind", "probs"), ("sh", optNatJson sh)]
+
 def handleReq (j : Json) : Except String Json := do
   let op ← strOf j "op"
   match op with
@@ -373,6 +406,33 @@ def handleReq (j : Json) : Except String Json := do
       let (calls, cf) := probsIterate fixed c (← optNat j "max_shots") its
       return Json.mkObj [("calls", Json.arr (calls.map scfgJson).toArray), ("final", scfgJson cf)]
     | k => throw s!"bad kind {k}"
+  | "job" =>
+    let c ← scfgOfJson (← j.getObjVal? "cfg")
+    let its ← (← arrOf j "its").toList.mapM (iterOfJson c.params.length)
+    let avail ← (← arrOf j "avail").toList.mapM fun e => do cmdOf (← e.getStr?)
+    let method ← cmdOf (← strOf j "method")
+    let args ← (← arrOf j "args").toList.mapM optNatVal
+    let kwj ← j.getObjVal? "kw"
+    let kw : Kw := ⟨← entryOf kwj "ms", ← entryOf kwj "sh", ← boolOf kwj "other"⟩
+    let prim := match primitiveOf avail method with
+      | none => Json.null
+      | some p => Json.str (cmdStr p)
+    match jobPlan avail method c its args kw with
+    | .error e => return Json.mkObj [("raise", .str e), ("prim", prim)]
+    | .ok pl =>
+      return Json.mkObj [("prim", prim), ("converts", toJson pl.converts),
+        ("call", match pl.call with
+          | none => Json.null
+          | some cl => callJson cl),
+        ("calls", Json.arr (pl.iterCalls.map scfgJson).toArray),
+        ("final", match pl.final with
+          | none => Json.null
+          | some cf => scfgJson cf),
+        ("conv", Json.arr (pl.conv.map fun kv => Json.arr #[entryJson kv.1, entryJson kv.2]).toArray),
+        ("takesKw", toJson (converterTakesKw method pl.prim)),
+        ("count", Json.arr (pl.conv.map fun kv => match convertedCount kv with
+          | .ok n => toJson n
+          | .error e => Json.str e).toArray)]
   | "provconst" =>
     let n ← natOf j "n"
     return Json.mkObj [("ceilTenth", toJson ((List.range (n + 1)).map ceilTenth)),
